@@ -205,9 +205,15 @@ def hdf5_verdict_names(repo):
                             x.test.ops[0], ast.NotIn) and \
                             dotted(x.test.left) in tnames and \
                             dotted(x.test.comparators[0]) == container:
-                        if any(_is_report_append(b) is not None
-                               for b in x.body):
-                            return True
+                        for b in x.body:
+                            if _is_report_append(b) is not None:
+                                return True
+                            if any(isinstance(y, (ast.Continue, ast.Break,
+                                                  ast.Return))
+                                   for y in ast.walk(b)):
+                                # the branch can be left before anything
+                                # is reported (an exemption)
+                                return False
         return False
     checked = {
         'attrs': loop_reports('required_attrs', 'table.attrs'),
